@@ -7,11 +7,18 @@ real run : (targets wfc / stream / dgram_ep / dgram_ls) the real WriteFlowContro
            (vlib/c20_drive.py): partial kernel acceptance, pause/resume, connection loss with and without error, close,
            cancellation of individual senders, in every order;
            (target sock) the real adapter over the real asyncio selector transport on a socketpair whose peer stops
-           reading, then reads again or closes.
+           reading, then reads again or closes;
+           (targets tls_sock / tls_mem, vlib/c20_tls.py) the TLS twin: 1 … 6 concurrent senders on ONE AsyncTLSStreamTransport
+           over the real adapter on a socketpair (small SO_SNDBUF, independent stdlib-ssl peer driven between loop turns)
+           or over an in-memory transport with the adapter's semantics; the peer stops reading, senders are cancelled /
+           time out (the owner of the TLS send lock or a queued one), the connection is reset, the transport is closed.
 model run: the same event list through the Lean model (endriver `fc`): flow control + sender tasks + write-buffer machine.
 oracle   : a send that returns has its bytes out of the user-space buffer (datagram: at most the transport's high-water
            mark queued); parked senders are all resumed when writing resumes, all end when the connection is lost, a
            cancelled sender is the only one cancelled, nobody stays parked once the peer reads again.
+           TLS targets (oracle only): a send that returns has its records out of user space (outgoing BIO + write buffer);
+           cancelling any sender strands nobody; after a connection loss every suspended sender ends and the ones with bytes
+           in user space do not return normally; the peer gets whole packets in ssl.write order (scoping: docs/C20.md).
 """
 from __future__ import annotations
 
@@ -51,20 +58,35 @@ TRUSTED_BASE = [
     "selector transports' write path (assumed behaviour), tied by this check (sampled)",
     "harness: deterministic loop, fake transports built on asyncio.transports._FlowControlMixin, canonicaliser, endriver parser",
     "environment fact probed at run time: does _SelectorSocketTransport.writelines() call _maybe_pause_protocol()",
+    "TLS targets: proxy around ssl.SSLObject (write() only notes offsets), pass-through counter around the adapter, "
+    "in-memory transport with the adapter's accept-then-drain semantics, stdlib-ssl peer driven by the harness; "
+    "AF_UNIX socketpair + asyncio selector transport, single thread (no timing)",
 ]
 ASSUMPTIONS = [
     "stream transports: write-buffer limits are (0, 0) as set by the adapter's constructor; datagram transports: asyncio defaults (64 KiB / 16 KiB)",
     "C20_returns_only_when_flushed: no pause_writing/resume_writing calls other than the transport's own, and "
     "(writelines pauses or the adapter re-asserts the limits)",
     "a sender id is used by one task at a time",
+    "TLS targets are judged by the oracle only (no model run). Two behaviours of the unchanged TLS layer with >= 3 "
+    "concurrent senders (a queued sender whose records were inside ANOTHER sender's failed / cancelled flush returns "
+    "normally) are outside the scope of C20 (stated for the asyncio transports): counted in "
+    "coverage.tls_observed_outside_scope, not judged (docs/C20.md)",
 ]
 RULE = (
     "case = target x number of senders x event list (send/sendv/drain/pause/resume/kernel/lost/fail/close/cancel/turn, <= 16) "
     "+ finishing events; non-trivial = at least one sender parked on a drain waiter, classed by what ended the wait "
-    "(resume, kernel progress, loss, cancel) and by target; sock case = ops on a real socketpair; distinct by case digest"
+    "(resume, kernel progress, loss, cancel) and by target; sock case = ops on a real socketpair; tls case = target "
+    "(tls_sock / tls_mem) x TLS version x role x optional reader x ops (send / sendv by 1 … 6 tasks, optionally inside "
+    "timeout / move_on_after scopes, cancel, advance, peer-read [k], peer-send, peer-close, aclose, turn), non-trivial = at "
+    "least one sender suspended across a turn, classed by the number suspended (1, 2, 3, more) and the disturbances; "
+    "distinct by case digest"
 )
 
 _aux: dict[str, Any] = {}
+TLS_TARGETS = ("tls_sock", "tls_mem")
+# shapes seen on the unchanged library that are outside the scope of C20 (see docs/C20.md): counted for the evidence file
+OBSERVED: dict[str, int] = {"A ok-after-loss, records inside another sender's failed flush": 0,
+                            "B early-return after another sender's cancelled flush": 0}
 
 
 def _env() -> tuple[int, int]:
@@ -73,6 +95,9 @@ def _env() -> tuple[int, int]:
 
 # ----------------------------------------------------------------------------------------------
 def run_real(case: dict) -> list[str]:
+    if case["target"] in TLS_TARGETS:
+        from vlib import c20_tls
+        return c20_tls.run_tls(case)
     if case["target"] == "sock":
         r = drv.SockRun()
         try:
@@ -106,7 +131,7 @@ def _ev_line(ev: list) -> str:
 
 
 def model_input(case: dict, real: list[str]):
-    if case["target"] == "sock":
+    if case["target"] == "sock" or case["target"] in TLS_TARGETS:
         return None
     aux = _aux.get(core.case_digest(case))
     if aux is None:
@@ -146,6 +171,8 @@ def oracle(case: dict, real: list[str]) -> str | None:
     for ln in real:
         if ln.startswith("harness-exc") or ln.startswith("unhandled"):
             return ln
+    if case["target"] in TLS_TARGETS:
+        return _oracle_tls(case, real)
     blocks = _blocks(real)
     stream = case["target"] in ("stream", "sock")
     # O1: a send that returned has its bytes out of user space (datagram: within the high-water mark).
@@ -240,7 +267,266 @@ def _oracle_sock(case: dict, blocks) -> str | None:
     return None
 
 
+# ----------------------------------------------------------------------------------------------
+# TLS twin (vlib/c20_tls.py): several senders on one AsyncTLSStreamTransport, oracle only
+# ----------------------------------------------------------------------------------------------
+def _tls_blocks(real: list[str]) -> list[tuple[list[str], list[str], int]]:
+    """per op (then one block for finish): (lines, tasks in flight, user-space queue)"""
+    res, cur = [], []
+    for ln in real:
+        m = re.match(r"st parked=(\S+) uq=(\d+)", ln)
+        if m:
+            res.append((cur, [] if m.group(1) == "-" else m.group(1).split(","), int(m.group(2))))
+            cur = []
+        else:
+            cur.append(ln)
+    return res
+
+
+def _oracle_tls(case: dict, real: list[str]) -> str | None:
+    if real and real[0].startswith("handshake-failed"):
+        return "the TLS handshake did not complete: " + real[0]
+    ops = case["ops"]
+    blocks = _tls_blocks(real)
+    if len(blocks) != len(ops) + 1:
+        return f"harness: {len(ops)} ops but {len(blocks)} state lines"
+    cancel_t: set[str] = set()
+    scope_t: dict[str, str] = {}
+    atloss: dict[str, str] = {}
+    lost = closed = False
+    disturbed = False               # a sender ended otherwise than `ok`: its records may legitimately stay behind
+    for op, (lines, _, _) in zip(ops + [["finish"]], blocks):
+        k = op[0]
+        started = "start" in lines
+        if k in ("send", "sendv") and started:
+            i = str(op[1])
+            cancel_t.discard(i)
+            scope_t.pop(i, None)
+            atloss.pop(i, None)
+            if len(op) >= 5:
+                scope_t[i] = op[3]
+            if lost:
+                atloss[i] = "unstarted"
+        if k == "cancel":
+            cancel_t.add(str(op[1]))
+        if k == "peer-close":
+            lost = True
+        if k == "aclose":
+            closed = True
+        for ln in lines:
+            m = re.match(r"atloss (\S+) pend=(\S+)", ln)
+            if m:
+                atloss[m.group(1)] = m.group(2)
+                continue
+            m = re.match(r"done (\S+) (.*)", ln)
+            if not m:
+                continue
+            i, res = m.group(1), m.group(2)
+            if i in ("r", "c"):
+                continue
+            if not res.startswith("ok"):
+                disturbed = True
+            # O4: cancellation / a timeout hits only its target
+            if res == "cancelled" and i not in cancel_t:
+                return f"sender {i} ended cancelled but was never cancelled"
+            if res in ("timeout", "movedon") and scope_t.get(i) != {"timeout": "timeout", "movedon": "moveon"}[res]:
+                return f"sender {i} ended with `{res}` but had no such scope"
+            if res.startswith("err ") and not lost and not closed:
+                return f"sender {i} failed ({res}) although the connection is alive and nobody closed the transport"
+            mo = re.match(r"ok pend=(\d+) lost=(\d) closed=(\d) where=(\S+)", res)
+            if mo:
+                pend = int(mo.group(1))
+                wh = mo.group(4)
+                where = {"bio": "still in the outgoing BIO",
+                         "inflight-flush:own": "inside its own send_all() of the wrapped transport, still in progress",
+                         "inflight-flush:other": "inside a send_all() of the wrapped transport that is still in progress",
+                         "cancelled-flush:other": "inside a send_all() of the wrapped transport (another sender's flush) that was cancelled",
+                         "failed-flush:other": "inside a send_all() of the wrapped transport (another sender's flush) that failed",
+                         "failed-flush:own": "inside its OWN send_all() of the wrapped transport, which failed",
+                         }.get(wh, wh)
+                # Outside the scope of C20 (TLS layer; docs/C20.md "observed on the unchanged library"): the records of a
+                # QUEUED sender had been handed to the wrapped transport by ANOTHER sender's flush, and that flush was
+                # cancelled (B) or failed (A): the queued sender finds the BIO empty and returns.  Counted, not judged.
+                al = atloss.get(i)
+                if wh == "cancelled-flush:other" and (pend or (al is not None and al != "0")):
+                    OBSERVED["B early-return after another sender's cancelled flush"] += 1
+                    continue
+                if wh == "failed-flush:other" and al is not None and al != "0":
+                    OBSERVED["A ok-after-loss, records inside another sender's failed flush"] += 1
+                    continue
+                # O1: a send that returns has its records out of user space (outgoing BIO + adapter write buffer)
+                if pend and mo.group(2) == "0" and mo.group(3) == "0":
+                    return (f"TLS send {i} returned with {pend} bytes of its records still in user space (outgoing BIO / "
+                            f"write buffer of the wrapped transport) while the peer is not reading; its last record is {where}")
+                # O3: suspended with bytes in user space when the connection was lost -> never success
+                if al is not None and al != "0":
+                    what = ("had not started" if al == "unstarted" else f"was suspended with {al} bytes of its records still in user space")
+                    return (f"sender {i} {what} when the connection was lost, and returned normally instead of failing "
+                            f"with a connection error; its last record is {where}")
+            if res.startswith("err ") and res != "err conn":
+                al = atloss.get(i)
+                if al is not None and al not in ("0", "unstarted"):
+                    return (f"sender {i} was suspended when the connection was lost and failed with `{res}` "
+                            "instead of a connection error")
+    # O5: nobody is left suspended once the peer has read everything / the connection is lost
+    _, parked, uq = blocks[-1]
+    senders = [p for p in parked if p != "c"]
+    if senders:
+        why = ("the connection was lost (hanging on a dead connection)" if lost else
+               "the peer read everything" + (" (stranded by the cancellation of another sender)" if cancel_t or scope_t else ""))
+        return f"senders {senders} still suspended at the end although {why}"
+    if "c" in parked:
+        return "aclose() still suspended at the end (shutdown timeout elapsed, peer read everything)"
+    # what the peer got: the bytes written, in ssl.write order; the whole packet of every sender that returned normally
+    for ln in real:
+        if ln.startswith("peer received="):
+            kv = dict(w.split("=", 1) for w in ln.split()[1:])
+            if kv["prefix"] != "1":
+                return "the peer decrypted bytes that are not the bytes written (in ssl.write order)"
+            if kv["error"] not in ("-", "closed") and not lost:
+                return f"the peer failed to decrypt the stream: {kv['error']}"
+        if ln.startswith("peer missing-of-ok ") and ln.split()[2] != "-":
+            return ("the peer read everything but did not get the whole packet of sender(s) that returned normally: "
+                    + ln.split()[2])
+    if not lost and not closed and not disturbed and uq:
+        return f"every sender returned normally but {uq} bytes are still in user space (outgoing BIO / write buffer)"
+    return None
+
+
+def _nontrivial_tls(case: dict, real: list[str]) -> str | None:
+    blocks = _tls_blocks(real)
+    most = 0
+    for op, (lines, parked, _) in zip(case["ops"], blocks):
+        if op[0] == "turn":
+            most = max(most, len([p for p in parked if p not in ("c",)]))
+    if most == 0:
+        return None
+    kinds = sorted({op[0] for op in case["ops"] if op[0] in ("cancel", "peer-close", "aclose", "advance", "peer-read")})
+    return f"{case['target']}/parked{min(most, 3)}{'+' if most > 3 else ''}/" + "+".join(kinds or ["plain"])
+
+
+def _shrink_tls(case: dict):
+    ops = case["ops"]
+    for i in range(len(ops)):
+        yield {**case, "ops": ops[:i] + ops[i + 1:]}
+    if case.get("reader"):
+        yield {**case, "reader": False}
+    if case.get("ver", "1.3") != "1.3":
+        yield {**case, "ver": "1.3"}
+    if case.get("role", "client") != "client":
+        yield {**case, "role": "client"}
+    if case["target"] != "tls_mem":
+        yield {**case, "target": "tls_mem"}
+    for i, op in enumerate(ops):
+        if op[0] in ("send", "sendv") and len(op) >= 5:
+            yield {**case, "ops": ops[:i] + [op[:3]] + ops[i + 1:]}
+        if op[0] == "sendv":
+            yield {**case, "ops": ops[:i] + [["send", op[1], sum(op[2])] + op[3:]] + ops[i + 1:]}
+        if op[0] == "send" and op[2] > 1:
+            for m in (1, 1000, op[2] // 2):
+                if m < op[2]:
+                    yield {**case, "ops": ops[:i] + [["send", op[1], m] + op[3:]] + ops[i + 1:]}
+
+
+def _tls_corpus() -> list[dict]:
+    big = {"tls_sock": 300000, "tls_mem": 20000}
+    cs: list[dict] = []
+    for tgt in ("tls_sock", "tls_mem"):
+        b = big[tgt]
+        # N senders behind a peer that does not read: nobody returns; then the peer reads: everybody does, whole packets
+        for n in (3, 4, 6):
+            cs.append({"target": tgt, "ops": [["send", 0, b], ["turn"], ["turn"]] +
+                       [["send" if i % 2 else "sendv", i, 512 if i % 2 else [300, 212]] for i in range(1, n)] +
+                       [["turn"], ["turn"], ["turn"]],
+                       "note": f"{n} concurrent TLS senders, peer not reading: owner parked in the wrapped transport, the others "
+                               "behind the send lock; none may return before its records left user space"})
+        # all started in the same loop turn
+        cs.append({"target": tgt, "ops": [["send", i, b if i == 0 else 1000] for i in range(5)] + [["turn"], ["turn"], ["turn"]]})
+        # the lock owner is cancelled / times out while others are queued behind it
+        cs.append({"target": tgt, "ops": [["send", 0, b], ["turn"], ["send", 1, 512], ["send", 2, 512], ["turn"], ["turn"],
+                                           ["cancel", 0], ["turn"], ["turn"]],
+                   "note": "cancel the owner of the TLS send lock (suspended in the wrapped transport): the queued senders must "
+                           "complete once the peer reads"})
+        cs.append({"target": tgt, "ops": [["send", 0, b, "timeout", 5], ["turn"], ["sendv", 1, [100, 100]], ["send", 2, 1], ["turn"],
+                                           ["advance", 6], ["turn"], ["turn"], ["turn"]]})
+        cs.append({"target": tgt, "ops": [["send", 0, b, "moveon", 5], ["turn"], ["send", 1, 100], ["turn"],
+                                           ["advance", 6], ["turn"], ["turn"], ["aclose"], ["turn"]]})
+        # a queued sender (not the owner) is cancelled
+        cs.append({"target": tgt, "ops": [["send", 0, b], ["turn"], ["send", 1, 512], ["send", 2, 512], ["send", 3, 512], ["turn"],
+                                           ["cancel", 1], ["turn"], ["cancel", 2], ["turn"]]})
+        # the connection is lost while the owner is suspended and another sender is queued
+        cs.append({"target": tgt, "ops": [["send", 0, b], ["turn"], ["send", 1, 512], ["turn"], ["turn"], ["peer-close"],
+                                           ["turn"], ["turn"], ["turn"], ["turn"]],
+                   "note": "connection reset while the owner of the TLS send lock is suspended and another sender is queued: "
+                           "both must fail with a connection error"})
+        cs.append({"target": tgt, "reader": True, "ops": [["send", 0, b], ["turn"], ["send", 1, 512], ["turn"], ["peer-read", 3000],
+                                                          ["turn"], ["peer-close"], ["turn"], ["turn"], ["send", 1, 5], ["turn"]]})
+        # close while senders are suspended
+        cs.append({"target": tgt, "ops": [["send", 0, b], ["turn"], ["send", 1, 512], ["turn"], ["aclose"], ["turn"], ["turn"]]})
+    return cs
+
+
+def _gen_tls(rng) -> dict:
+    tgt = rng.choice(["tls_sock", "tls_sock", "tls_mem"])
+    n = rng.choice([1, 2, 3, 3, 4, 4, 5, 6])
+    big = [100000, 200000, 300000] if tgt == "tls_sock" else [6000, 20000, 70000]
+    small = [1, 100, 1000, 5000]
+    ops: list[list] = []
+
+    def start(i: int, first: bool) -> list:
+        pool = big if (first or rng.random() < 0.2) else small
+        if rng.random() < 0.6:
+            op: list = ["send", i, rng.choice(pool)]
+        else:
+            op = ["sendv", i, [rng.choice(pool if j == 0 else small) for j in range(rng.randint(1, 3))]]
+        r = rng.random()
+        if r < 0.10:
+            op += ["timeout", rng.choice([1, 5])]
+        elif r < 0.20:
+            op += ["moveon", rng.choice([1, 5])]
+        return op
+
+    ids = list(range(n))
+    rng.shuffle(ids)
+    burst = rng.random() < 0.3                  # everybody starts in the same loop turn
+    for j, i in enumerate(ids):
+        ops.append(start(i, j == 0))
+        if not burst:
+            for _ in range(rng.choice([0, 1, 1, 2])):
+                ops.append(["turn"])
+    for _ in range(rng.randint(1, 3)):
+        ops.append(["turn"])
+    owner = ids[0]
+    for _ in range(rng.randint(0, 7)):
+        r = rng.random()
+        if r < 0.22:
+            ops.append(["cancel", owner if rng.random() < 0.5 else rng.choice(ids)])
+        elif r < 0.32:
+            ops.append(["advance", rng.choice([1, 2, 6])])
+        elif r < 0.47:
+            ops.append(["peer-read", rng.choice([1000, 5000, 20000, 100000])] if rng.random() < 0.7 else ["peer-read"])
+        elif r < 0.57:
+            ops.append(["peer-close"])
+        elif r < 0.65:
+            ops.append(start(rng.choice(ids), False))
+        elif r < 0.70:
+            ops.append(["aclose"])
+        elif r < 0.74:
+            ops.append(["peer-send", rng.choice([1, 1000])])
+        else:
+            ops.append(["turn"])
+        if rng.random() < 0.5:
+            ops.append(["turn"])
+    case = {"target": tgt, "ver": rng.choice(["1.3", "1.3", "1.2"]), "role": rng.choice(["client", "client", "server"]),
+            "ops": ops}
+    if rng.random() < 0.4:
+        case["reader"] = True
+    return case
+
+
 def nontrivial(case: dict, real: list[str]) -> str | None:
+    if case["target"] in TLS_TARGETS:
+        return _nontrivial_tls(case, real)
     blocks = _blocks(real)
     ever_parked_two_turns = False
     age: dict[int, int] = {}
@@ -265,6 +551,12 @@ def nontrivial(case: dict, real: list[str]) -> str | None:
 
 
 def shrink(case: dict):
+    if "note" in case:
+        case = {k: v for k, v in case.items() if k != "note"}
+        yield case
+    if case["target"] in TLS_TARGETS:
+        yield from _shrink_tls(case)
+        return
     key = "ops" if case["target"] == "sock" else "events"
     evs = case[key]
     for i in range(len(evs)):
@@ -281,6 +573,14 @@ def shrink(case: dict):
 
 
 def known_key(case: dict, real: list[str], why: str) -> str:
+    if case["target"] in TLS_TARGETS:
+        kind = ("unflushed-return" if "still in user space" in why and "returned with" in why
+                else "ok-after-loss" if "returned normally instead of failing" in why
+                else "stranded" if "still suspended" in why
+                else "content" if "the peer" in why else "other")
+        where = ("bio" if "still in the outgoing BIO" in why else "inflight-flush" if "still in progress" in why
+                 else "cancelled-flush" if "that was cancelled" in why else "failed-flush" if "failed" in why else "")
+        return f"target=tls,kind={kind}" + (f",where={where}" if where else "")
     evs = case.get("events") or case.get("ops")
     path = "send_all_from_iterable" if any(e[0] == "sendv" for e in evs) else "other"
     kind = "unflushed-return" if "still in the user-space" in why else "other"
@@ -322,6 +622,7 @@ def corpus() -> list[dict]:
     cs.append({"target": "sock", "ops": [["sendv", 0, [100000, 200000]], ["turn"], ["turn"], ["turn"]]})
     cs.append({"target": "sock", "ops": [["sendv", 0, [300000]], ["send", 1, 1000], ["turn"], ["turn"], ["cancel", 0], ["turn"], ["turn"]]})
     cs.append({"target": "sock", "ops": [["send", 0, 300000], ["sendv", 1, [300000]], ["turn"], ["turn"], ["peer-close"], ["turn"], ["turn"], ["turn"]]})
+    cs += _tls_corpus()
     return cs
 
 
@@ -449,9 +750,14 @@ def generate(rng, tier: str, boost: int):
     m = (60 if tier == "quick" else 600) * boost
     for _ in range(m):
         yield _gen_sock(rng)
+    # the TLS twin: several senders on one AsyncTLSStreamTransport (real adapter on a socketpair / in-memory transport)
+    m = (300 if tier == "quick" else 3000) * boost
+    for _ in range(m):
+        yield _gen_tls(rng)
 
 
 def extra_coverage(stats) -> dict:
     wlp, re_ = _env()
     return {"environment": {"writelines_runs_pause_check": bool(wlp), "adapter_reasserts_write_limits": bool(re_)},
-            "flushed_on_return_theorem_applies": bool(wlp or re_)}
+            "flushed_on_return_theorem_applies": bool(wlp or re_),
+            "tls_observed_outside_scope": dict(OBSERVED)}
